@@ -1507,12 +1507,14 @@ def coq_case(scn, d) -> str:
 
 
 def correspondence(ck, cases: list) -> list[int]:
-    """cases: [(scenario, traced observation)] -> indices where the model's run disagrees."""
+    """cases: [(scenario as JSON text, rendered Coq case)] -> indices where the model's run disagrees.
+    (Cases are rendered to text as soon as they are observed: keeping the observation trees of thousands of
+    scenarios alive makes every gc.collect() of the weak-reference check slower and slower.)"""
     chunk = 60
     texts = []
     for k in range(0, len(cases), chunk):
         part = cases[k:k + chunk]
-        text = CASE_HEADER + "Definition cases : list case :=\n [ " + ";\n   ".join(coq_case(s, d) for s, d in part) \
+        text = CASE_HEADER + "Definition cases : list case :=\n [ " + ";\n   ".join(t for _, t in part) \
             + " ].\nEval vm_compute in (failing agree cases).\n"
         texts.append((f"cases_{k // chunk}", text))
     bad = []
@@ -1699,12 +1701,15 @@ def run(ck) -> None:
         force_restore()
         ck.broken("probe:reentry", repr(e))
     n = 300 if not ck.thorough else 4500
-    scns = _load_corpus()
-    n_corpus = len(scns)
-    for i in range(n):
-        scns.append(gen_scenario(ck.rng, ck.rng.choice([6, 14, 24, 36])))
+    corpus = _load_corpus()
+    n_corpus = len(corpus)
+    gc.collect()
+    gc.freeze()            # imported modules etc. are not re-scanned by every gc.collect() below
     cases, failures = [], []
-    for i, scn in enumerate(scns):
+    for i in range(n_corpus + n):
+        scn = corpus[i] if i < n_corpus else gen_scenario(ck.rng, ck.rng.choice([6, 14, 24, 36]))
+        for o in _flat_ops(scn):
+            ck.hist("ops", o["op"])
         a = run_scenario(scn, "plain")
         c = run_scenario(scn, "journal")
         d = run_scenario(scn, "traced", x)
@@ -1729,7 +1734,7 @@ def run(ck) -> None:
             site = divergence_site(scn, a, c) if any(b.startswith("interference") for b in bad) else None
             failures.append((scn, bad, site))
             ck.hist("scenario_exit", "oracle-failure:" + (_known_key(ck, bad, site) or "NEW"))
-        cases.append((scn, d))
+        cases.append((json.dumps(scn), coq_case(scn, d)))
         st = scn_stats(scn)
         ck.hist("nesting_depth", str(st["depth"]))
         for res, o in zip(c["results"], d["ops"]):
@@ -1749,8 +1754,6 @@ def run(ck) -> None:
         if n_corpus <= i < n_corpus + 3:
             ck.sample({"scenario": scn[:6], "results": c["results"][:6],
                        "entries": {j: [r[:2] for r in rows[:8]] for j, rows in c["entries"].items()}})
-    for it_name in sorted({o["op"] for s in scns for o in _flat_ops(s)}):
-        ck.hist("ops", it_name, sum(1 for s in scns for o in _flat_ops(s) if o["op"] == it_name))
     ck.coverage["traces_validated_against_impl"] = len(cases)
     try:
         mism = correspondence(ck, cases)
@@ -1758,7 +1761,7 @@ def run(ck) -> None:
         mism = []
         ck.broken("correspondence:harness", str(e))
     for i in mism[:3]:
-        scn, d = cases[i]
+        scn = json.loads(cases[i][0])
         small = shrink(scn, lambda s: bool(_model_disagrees(ck, s, x)), budget=25)
         ck.broken("correspondence:run",
                   json.dumps({"scenario": small, "why": "Model.run disagrees with the implementation on journal "
@@ -1792,7 +1795,7 @@ def _flat_ops(scn):
 
 def _model_disagrees(ck, scn, x) -> bool:
     d = run_scenario(scn, "traced", x)
-    return bool(correspondence(ck, [(scn, d)]))
+    return bool(correspondence(ck, [(json.dumps(scn), coq_case(scn, d))]))
 
 
 def replay(rp: dict) -> int:
